@@ -65,10 +65,14 @@ def main():
         ids = [c['property_id'] for c in props]
         if checks != 'all':
             ids = [i for i in ids if i in checks.split(',')]
-        for i in ids:
+        from concurrent.futures import ThreadPoolExecutor
+        def one(i):
             rc, o = sh([os.path.join(ROOT, 'check'), i, '--tier', 'quick'], cwd=ROOT, timeout=1800)
             lines = [l for l in o.split('\n') if l.startswith('VIOLATION')]
-            caught[i] = dict(exit=rc, violation_lines=lines[:4])
+            return i, dict(exit=rc, violation_lines=lines[:4])
+        with ThreadPoolExecutor(5) as ex:
+            for i, r in ex.map(one, ids):
+                caught[i] = r
     finally:
         sh(['git', '-C', REPO, 'checkout', '--', '.'])
     result['checks'] = caught
